@@ -39,7 +39,8 @@ def _templates():
 # eq, mask) | ('sym', eid, [keys]); leaf = dict(t='leaf', uid, sgn, qs, mk, cs, ps); sub = dict(t='sub', c=moments,
 # reps, ids, use, qm, km, pm, pp, ext, until)
 class Vocab:
-    FIXED = {0: ('ZPowGate', 0.5, 1), 1: ('XPowGate', 0.25, 1), 3: ('CZPowGate', 0.5, 2), 4: ('ISwapPowGate', 0.5, 2)}
+    FIXED = {0: ('ZPowGate', 0.5, 1), 1: ('XPowGate', 0.25, 1), 3: ('CZPowGate', 0.5, 2), 4: ('ISwapPowGate', 0.5, 2),
+             5: ('XPowGate', 1.0, 1), 6: ('CXPowGate', 1.0, 2)}      # 5, 6: classical gates for the simulation streams
     PARAM = {20: ('YPowGate', 1), 21: ('ZZPowGate', 2)}
     MEAS = 10
     UNIT = 8           # PVal v means the number v / 8
@@ -48,8 +49,8 @@ class Vocab:
         import sympy
         self.cirq, self.sympy = cirq, sympy
         self.tmpl = _templates()
-        self.by_type = {getattr(cirq, n): u for u, (n, _, _) in self.FIXED.items()}
-        self.by_type.update({getattr(cirq, n): u for u, (n, _) in self.PARAM.items()})
+        self.by_type = {(getattr(cirq, n), e): u for u, (n, e, _) in self.FIXED.items()}
+        self.by_ptype = {getattr(cirq, n): u for u, (n, _) in self.PARAM.items()}
 
     # -- build
     def key(self, k):
@@ -156,13 +157,12 @@ class Vocab:
         g = op.gate
         if isinstance(g, cirq.MeasurementGate):
             return dict(t='leaf', uid=self.MEAS, sgn=False, qs=qs, mk=[self.dkey(g.mkey)], cs=cs, ps=[])
-        u = self.by_type.get(type(g))
+        u = self.by_ptype.get(type(g))
         if u is None:
-            raise ValueError(f'operation outside the vocabulary: {op!r}')
-        if u in self.FIXED:
             e = float(g.exponent)
-            if abs(abs(e) - self.FIXED[u][1]) > 1e-12:
-                raise ValueError(f'exponent changed: {op!r}')
+            u = self.by_type.get((type(g), abs(e)))
+            if u is None:
+                raise ValueError(f'operation outside the vocabulary: {op!r}')
             return dict(t='leaf', uid=u, sgn=e < 0, qs=qs, mk=[], cs=cs, ps=[])
         neg, p = self.dpval(g.exponent)
         return dict(t='leaf', uid=u, sgn=neg, qs=qs, mk=[], cs=cs, ps=[p])
@@ -481,15 +481,17 @@ def s_depth(o):
 class Gen:
     """Structured generator of nested CircuitOperation records (all keys written at user level: empty paths)."""
 
-    def __init__(self, rng, sim=False):
+    def __init__(self, rng, sim=False, classical=False, param_leaves=None):
         self.rng = rng
         self.sim = sim          # simulation-friendly: every control key bound, no parameters left, no symbolic reps
+        self.classical = classical      # only X / CNOT leaves: records are fully determined
+        self.param_leaves = (not sim) if param_leaves is None else param_leaves
 
     def leaf(self, free_q, measured, pure, outer_names):
         rng = self.rng
         r = rng.random()
         if pure or r < 0.45:
-            kind = 'p' if (rng.random() < 0.25 and not self.sim) else 'u'
+            kind = 'p' if (rng.random() < 0.25 and self.param_leaves) else 'u'
         elif r < 0.72:
             kind = 'm'
         else:
@@ -504,13 +506,13 @@ class Gen:
             uid = 21 if two else 20
             ps = [('sym', rng.choice(['t', 's', 'u']))]
         else:
-            uid = rng.choice([3, 4]) if two else rng.choice([0, 1])
+            uid = (6 if two else 5) if self.classical else (rng.choice([3, 4]) if two else rng.choice([0, 1]))
             ps = []
         cs = []
         if kind == 'c':
             pool = list(measured) if (measured and (self.sim or rng.random() < 0.75)) else (list(outer_names) or NAMES)
-            if self.sim and not measured:
-                pool = list(outer_names)
+            if self.sim:
+                pool = list(measured) + list(outer_names)
             if pool:
                 for _ in range(rng.choice([1, 1, 2])):
                     c = rcond(rng, lambda: ((), rng.choice(pool)), len(set(pool)))
@@ -1069,6 +1071,217 @@ def subs_of(D):
 
 
 # ----------------------------------------------------------------------------------------------------------------
+# stream 3: unitary of the wrapped operation vs its unrolled circuit (incl. the single-qubit fast path, F4)
+def unitary_stream(ctx, cirq, V, n):
+    rng = ctx.rng
+    gen = Gen(rng, sim=True, param_leaves=True)
+    done = tries = 0
+    while done < n and tries < 20 * n:
+        tries += 1
+        one = rng.random() < 0.4            # single-qubit bodies select CircuitOperation._unitary_'s fast path
+        rec = gen.sub(rng.choice([0, 0, 1, 1, 2]), 1 if one else 3, True, [], exact_depth=False)
+        if rec is None:
+            continue
+        built = attempt(lambda: V.sub(rec))
+        if built[0] != 'ok':
+            continue
+        op = built[1]
+        D = V.dsub(op)
+        done += 1
+        ctx.count('unitary:1q' if len(op.qubits) == 1 else 'unitary:nq', D, True,
+                  sample=dict(op=repr(op)[:500], has_unitary=bool(cirq.has_unitary(op))))
+        check_unitary(ctx, cirq, V, op, D)
+
+
+def unitary_defect(cirq, V, D):
+    op = V.sub(D)
+    flat = op.mapped_circuit(deep=True)
+    hu_w, hu_f = bool(cirq.has_unitary(op)), bool(cirq.has_unitary(flat))
+    if hu_w != hu_f:
+        return f'has_unitary-{hu_w}-but-unrolled-{hu_f}'
+    if not hu_w:
+        return ''
+    u = attempt(lambda: cirq.unitary(op))
+    if u[0] != 'ok':
+        return 'unitary-raises-although-has_unitary'
+    want = flat.unitary(qubit_order=list(op.qubits), qubits_that_should_be_present=op.qubits)
+    if u[1].shape != want.shape or not np.allclose(u[1], want, atol=1e-8):
+        return 'unitary-differs-from-unrolled'
+    return ''
+
+
+def check_unitary(ctx, cirq, V, op, D):
+    kind = unitary_defect(cirq, V, D)
+    if kind:
+        small = shrink(D, lambda x: unitary_defect(cirq, V, x) == kind, budget=200)
+        sop = V.sub(small)
+        tag = '1q-fast-path' if len(sop.qubits) == 1 else 'general'
+        ctx.violation(f'F4:unitary:{tag}:{kind}', f'cirq.unitary / has_unitary of the wrapped operation vs its unrolled circuit: {kind}; '
+                      f'minimised input: {sop!r}'[:1800], dict(kind='unitary', rec=small, defect=kind))
+
+
+# ----------------------------------------------------------------------------------------------------------------
+# stream 4: simulation of wrapped vs unrolled circuits whose records are fully determined (X / CNOT / measure / control)
+def records_of(cirq, circuit):
+    r = cirq.Simulator().run(circuit, repetitions=1)
+    return {k: np.asarray(v).tolist() for k, v in sorted(r.records.items())}
+
+
+def sim_case(rng, gen):
+    """(prep moments as records, names bound before the operation, record of the operation)."""
+    nq = 4
+    prep = [[dict(t='leaf', uid=5, sgn=False, qs=[q], mk=[], cs=[], ps=[]) for q in range(nq) if rng.random() < 0.5]]
+    names = rng.sample(NAMES, 2)
+    prep.append([dict(t='leaf', uid=Vocab.MEAS, sgn=False, qs=[q], mk=[((), nm)], cs=[], ps=[])
+                 for q, nm in zip(rng.sample(range(nq), 2), names)])
+    prep = [m for m in prep if m]
+    rec = gen.sub(rng.choice([0, 1, 1, 2, 2]), nq, rng.random() < 0.15, names, exact_depth=True)
+    return prep, names, rec
+
+
+def sim_defect(cirq, V, prep, D, ctl):
+    """'' if simulating the wrapped operation and its unrolled circuit(s) gives the same records."""
+    op = V.sub(D)
+    flat = op.mapped_circuit(deep=True)
+    pre = [cirq.Moment(V.op(o) for o in m) for m in prep]
+    fin = cirq.Moment(cirq.measure(*[V.q(i) for i in range(4)], key='fin'))
+    if ctl is not None:
+        cop = op.with_classical_controls(V.cond(ctl))
+        wrapped = cirq.Circuit(pre + [cirq.Moment(cop), fin])
+        flat_ms = [cirq.Moment(o.with_classical_controls(V.cond(ctl)) for o in m) for m in flat.moments]
+    else:
+        wrapped = cirq.Circuit(pre + [cirq.Moment(op), fin])
+        flat_ms = list(flat.moments)
+    unrolled = cirq.Circuit(pre + flat_ms + [fin])
+    a = attempt(lambda: records_of(cirq, wrapped))
+    b = attempt(lambda: records_of(cirq, unrolled))
+    dec = cirq.Circuit(cirq.decompose(wrapped, keep=lambda o: not isinstance(o.untagged, cirq.CircuitOperation)
+                                      and not (isinstance(o, cirq.ClassicallyControlledOperation)
+                                               and isinstance(o._sub_operation.untagged, cirq.CircuitOperation))))
+    c = attempt(lambda: records_of(cirq, dec))
+    if a[:2] != b[:2]:
+        return 'records-wrapped-vs-unrolled', a, b
+    if a[:2] != c[:2]:
+        return 'records-wrapped-vs-decomposed', a, c
+    return '', a, b
+
+
+def sim_stream(ctx, cirq, V, n):
+    rng = ctx.rng
+    gen = Gen(rng, sim=True, classical=True)
+    done = tries = 0
+    while done < n and tries < 20 * n:
+        tries += 1
+        prep, names, rec = sim_case(rng, gen)
+        if rec is None or attempt(lambda: V.sub(rec))[0] != 'ok':
+            continue
+        op = V.sub(rec)
+        D = V.dsub(op)
+        if attempt(lambda: op.mapped_circuit(deep=True))[0] != 'ok':
+            continue
+        ctl = None
+        if not cirq.measurement_key_objs(op) and rng.random() < 0.5:
+            ctl = rcond(rng, lambda: ((), rng.choice(names)), 2)
+            if ctl[0] != 'sym' and ctl[2] > 0:      # the prepared keys have exactly one record
+                ctl = ctl[:2] + (0,) + ctl[3:]
+        kind, a, b = sim_defect(cirq, V, prep, D, ctl)
+        done += 1
+        ok = a[0] == 'ok'
+        ctx.count('sim:records' if ok else 'sim:both-raise', (prep, D, ctl), ok and len(a[1]) > 1,
+                  sample=dict(op=repr(op)[:500], control=ctl, records=a[1] if ok else a[1:]))
+        if kind:
+            small = shrink(D, lambda x: sim_defect(cirq, V, prep, x, ctl)[0] == kind, budget=200)
+            ctx.violation(f'sim:{kind}', f'{kind}: {a[1:]} vs {b[1:]}; minimised operation: {V.sub(small)!r}'[:1800] +
+                          f' after prep {prep} control {ctl}', dict(kind='sim', prep=prep, rec=small, ctl=ctl, defect=kind))
+
+
+# ----------------------------------------------------------------------------------------------------------------
+# stream 5: repeat_until = the least number of iterations after which the condition holds
+def cond_value(c, records):
+    """Independent evaluation of a condition on simulator records {key string: [instances][bits]}."""
+    def val(k, idx=-1):
+        bits = records[':'.join(tuple(k[0]) + (k[1],))][0][idx]
+        return int(''.join(str(int(x)) for x in bits) or '0', 2), bits
+    if c[0] == 'key':
+        return val(c[1], c[2])[0] != 0
+    if c[0] == 'mask':
+        v = val(c[1], c[2])[0]
+        if c[5] is not None:
+            v &= c[5]
+        return (v == c[3]) if c[4] else (v != c[3])
+    vs = [val(k) for k in c[2]]
+    e = c[1]
+    return {0: lambda: vs[0][0] == 1, 1: lambda: vs[0][0] > 1, 2: lambda: vs[0][0] == 1 and vs[1][0] == 0,
+            3: lambda: vs[0][1][0] == 1, 4: lambda: vs[0][0] + 2 * vs[1][0] > 1}[e]()
+
+
+def until_defect(cirq, V, prep, D, maxk=6):
+    """'' | defect kind.  The loop must stop after the first iteration whose records satisfy the condition."""
+    until = D['until']
+    pre = [cirq.Moment(V.op(o) for o in m) for m in prep]
+    fin = cirq.Moment(cirq.measure(*[V.q(i) for i in range(4)], key='fin'))
+    base = dict(D, until=None)
+    kstar = None
+    for k in range(1, maxk + 1):
+        opk = V.sub(dict(base, reps=k))
+        rk = attempt(lambda: records_of(cirq, cirq.Circuit(pre + list(opk.mapped_circuit(deep=True).moments) + [fin])))
+        if rk[0] != 'ok':
+            return 'skip'
+        # the condition is written in the namespace of the body; the operation's key map and parent path apply to it
+        km = dict(D['km'])
+        mapped = spec_cond_images(until, tuple(D['pp']), sorted(km.items()), [])[0]
+        mapped = spec_cond_images(mapped, tuple(D['pp']), [], [])[1]
+        try:
+            holds = cond_value(mapped, rk[1])
+        except (IndexError, KeyError):
+            return 'skip'
+        if holds:
+            kstar = k
+            want = rk[1]
+            break
+    if kstar is None:
+        return 'skip'
+    w = attempt(lambda: records_of(cirq, cirq.Circuit(pre + [cirq.Moment(V.sub(D)), fin])))
+    if w[0] != 'ok':
+        return 'until-raises-' + w[1]
+    if w[1] != want:
+        return 'until-iteration-count'
+    return ''
+
+
+def until_stream(ctx, cirq, V, n):
+    rng = ctx.rng
+    gen = Gen(rng, sim=True, classical=True)
+    done = tries = 0
+    while done < n and tries < 40 * n:
+        tries += 1
+        prep, names, rec = sim_case(rng, gen)
+        if rec is None:
+            continue
+        rec.update(reps=1, ids=None, use=False)
+        inner = sorted(set(x for m in rec['c'] for o in m for x in s_mnames(o)))
+        if not inner:
+            continue
+        rec['until'] = rcond(rng, lambda: ((), rng.choice(inner)), len(inner))
+        built = attempt(lambda: V.sub(rec))
+        if built[0] != 'ok':
+            continue
+        D = V.dsub(built[1])
+        kind = until_defect(cirq, V, prep, D)
+        if kind == 'skip':
+            continue
+        done += 1
+        ctx.count('sim:repeat_until', (prep, D), True, sample=dict(op=repr(built[1])[:500]))
+        if kind:
+            if payload(D['until']) not in ((-1,), (-1, 0, False, None)) and D['until'][0] != 'sym' and confirm_f2(ctx, cirq, V):
+                ctx.streams['explained:F2'] += 1
+                continue
+            small = shrink(D, lambda x: x['until'] is not None and until_defect(cirq, V, prep, x) == kind, budget=150)
+            ctx.violation(f'sim:{kind}', f'repeat_until loop: {kind}; minimised operation {V.sub(small)!r}'[:1800] + f' after prep {prep}',
+                          dict(kind='until', prep=prep, rec=small, defect=kind))
+
+
+# ----------------------------------------------------------------------------------------------------------------
 def run(ctx):
     cirq = env.import_cirq()
     V = Vocab(cirq)
@@ -1084,6 +1297,9 @@ def run(ctx):
     quick = ctx.tier == 'quick'
     key_stream(ctx, cirq, V, 300 if quick else 3000)
     struct_stream(ctx, cirq, V, 240 if quick else 2400)
+    unitary_stream(ctx, cirq, V, 100 if quick else 1500)
+    sim_stream(ctx, cirq, V, 120 if quick else 1500)
+    until_stream(ctx, cirq, V, 40 if quick else 400)
 
 
 def replay(ctx, data):
